@@ -577,7 +577,20 @@ bool Instance::configure_tx_txin() {
             stack.push_back(wstack[i]);
         }
     } else {
-        // legacy
+        // legacy -- unless the output is a witness program: spending one with an empty witness is invalid
+        // (WITNESS_PROGRAM_WITNESS_EMPTY / MISMATCH), not a legacy script that leaves <version> <program> on the stack
+        int witversion;
+        std::vector<unsigned char> witprogram;
+        CScript wrapped;
+        if (scriptPubKey.IsPayToScriptHash() && scriptSig.IsPushOnly()) {
+            // P2SH-wrapped: the redeem script is the last push of the scriptSig
+            CScript::const_iterator it = scriptSig.begin();
+            while (it < scriptSig.end() && scriptSig.GetOp(it, opcode, pushval)) wrapped = CScript(pushval.begin(), pushval.end());
+        }
+        if (scriptPubKey.IsWitnessProgram(witversion, witprogram) || wrapped.IsWitnessProgram(witversion, witprogram)) {
+            fprintf(stderr, "error: witness program was passed an empty witness\n");
+            return false;
+        }
         sigver = SigVersion::BASE;
         script = scriptSig;
         successor_script = scriptPubKey;
